@@ -208,6 +208,15 @@ class Check:
         except subprocess.TimeoutExpired:
             raise Infra("driver timed out: %s" % " ".join(args))
         if p.returncode not in ok_codes:
+            # an unrecovered Go panic also exits with status 2: it is a crash of the code under test when the panicking goroutine
+            # was inside the library (a library frame comes before the first frame of the harness)
+            perr = p.stderr
+            if "fatal error:" not in perr and "panic:" in perr:
+                tr = perr[perr.index("panic:"):]
+                i_lib, i_main = tr.find("github.com/jub0bs/cors"), tr.find("main.")
+                if i_lib >= 0 and (i_main < 0 or i_lib < i_main):
+                    frames = [ln.strip() for ln in tr.splitlines() if "jub0bs/cors" in ln][:6]
+                    raise Crash("driver %s died inside the code under test: %s | %s" % (args[0], tr.splitlines()[0][:300], " <- ".join(frames)), perr[:20000])
             if "fatal error:" in p.stderr and ("jub0bs/cors" in p.stderr):
                 head = p.stderr[p.stderr.index("fatal error:"):][:300]
                 frames = [ln.strip() for ln in p.stderr.splitlines() if "jub0bs/cors" in ln][:6]
